@@ -506,34 +506,35 @@ def serveMsg (H : Bytes → UInt64) (W : World) (name : Bytes) (qtype qclass : U
       | some f => Outcome.fail f
       | none => Outcome.miss
 
-/-- `Cache.serveWire` + `serveCompositeFromWire` for a wire-born request (RD set,
-no ECS), falling back to the decoded body.  A chase that declines, and every
-byte-path decline, re-runs the decoded ladder; so does a verified hit that is due
-for a background refresh (`due`: `serveHitFromWire` leaves the prefetch claim to
-the decoded body). -/
-def serveWire (H : Bytes → UInt64) (W : World) (w : Bytes) (qtype qclass : UInt16) (cd : Bool)
-    (due : Entry → Bool := fun _ => false) : Outcome :=
-  let decoded : Outcome :=
-    match present w with
-    | some name => serveMsg H W name qtype qclass cd none false
-    | none => Outcome.miss
+/-- the byte rungs of `Cache.serveWire` + `serveCompositeFromWire` for a wire-born
+request (RD set, no ECS); `none` = the request falls to the decoded body: a chase
+that declines, a verified hit that is due for a background refresh (`due`:
+`serveHitFromWire` leaves the prefetch claim to the decoded body), or a miss of
+every rung. -/
+def serveWireCore (H : Bytes → UInt64) (W : World) (w : Bytes) (qtype qclass : UInt16) (cd : Bool)
+    (due : Entry → Bool := fun _ => false) : Option Outcome :=
   match wireHit H W.st w qtype qclass cd with
   | some e =>
-    if due e then decoded else
+    if due e then none else
     match e.alias with
-    | none => Outcome.hit [e]
-    | some _ =>
-      match collectWireChase H W.st w qtype qclass cd maxWireChaseHops e [] with
-      | some es => Outcome.hit es
-      | none => decoded
+    | none => some (Outcome.hit [e])
+    | some _ => (collectWireChase H W.st w qtype qclass cd maxWireChaseHops e []).map Outcome.hit
   | none =>
     let cutHit := if cd then none else cutLookupWire H W.cs w qclass
     match cutHit with
-    | some c => Outcome.cut c
-    | none =>
-      match failureLookupWire H W.fs w qtype qclass cd with
-      | some f => Outcome.fail f
-      | none => decoded
+    | some c => some (Outcome.cut c)
+    | none => (failureLookupWire H W.fs w qtype qclass cd).map Outcome.fail
+
+/-- wire path with the decoded ladder as fallback (the alias chase of the decoded
+body is `serveWireFull`). -/
+def serveWire (H : Bytes → UInt64) (W : World) (w : Bytes) (qtype qclass : UInt16) (cd : Bool)
+    (due : Entry → Bool := fun _ => false) : Outcome :=
+  match serveWireCore H W w qtype qclass cd due with
+  | some o => o
+  | none =>
+    match present w with
+    | some name => serveMsg H W name qtype qclass cd none false
+    | none => Outcome.miss
 
 /-- `Store.GetWithContext`: exact verified lookup, then (unless the request tree
 bypasses shared denial) the cut, then the unscoped failure lookup. -/
@@ -642,11 +643,13 @@ prefix as forwarded upstream and as the cache probes with it. -/
 def clampSource (p : Policy) (c : Prefix) : Prefix :=
   c.withBits (min c.bits (if c.v6 then p.forwardV6 else p.forwardV4))
 
-/-- `ecs.ReadResponseScope`: the authority's SCOPE over the address it echoes
-(the forwarded source); SCOPE 0 means "global", a SCOPE longer than the address is
-unusable (`addr.Prefix` fails; the codec refuses such an option on the wire anyway). -/
-def responseScope (source : Prefix) (scopeBits : Nat) : Scope :=
-  if scopeBits = 0 ∨ scopeBits > 8 * source.addr.length then none else some (source.withBits scopeBits)
+/-- `ecs.ReadResponseScope`: the ECS option of the response as a prefix — `echo.addr`
+/ `echo.v6` the ADDRESS and FAMILY the authority put there (normally the forwarded
+source, but it is the authority's choice), `echo.bits` its SCOPE.  SCOPE 0 means
+"global"; a SCOPE longer than the address is unusable (`addr.Prefix` fails; the codec
+refuses such an option on the wire anyway). -/
+def responseScope (echo : Prefix) : Scope :=
+  if echo.bits = 0 ∨ echo.bits > 8 * echo.addr.length then none else some (echo.withBits echo.bits)
 
 /-- `Policy.ClampScope`: never narrower than SOURCE allows (RFC 7871 §7.1.2),
 never narrower than the operator's per-family floor. -/
@@ -656,22 +659,23 @@ def clampScope (p : Policy) (scope source : Prefix) : Prefix :=
   scope.withBits (if bits > floor then floor else bits)
 
 /-- the scope `WriteMsg` keys and tags a cacheable answer with: `client` is the
-request scope (`none`: ECS-aware caching does not apply), `scopeBits` the SCOPE
-of the response (`none`: no ECS option in the response). -/
-def admitScope (p : Policy) (client : Scope) (scopeBits : Option Nat) : Scope :=
-  match client, scopeBits with
-  | some src, some sb =>
-    match responseScope src sb with
+request scope (`none`: ECS-aware caching does not apply), `echo` the ECS option of
+the response (`none`: the response carries none). -/
+def admitScope (p : Policy) (client : Scope) (echo : Option Prefix) : Scope :=
+  match client, echo with
+  | some src, some ec =>
+    match responseScope ec with
     | some rs => some (clampScope p rs src)
     | none => none
   | _, _ => none
 
-/-- `ResponseWriter.WriteMsg` for a cacheable answer: key from the response's own
-question and CD bit and the clamped scope; the entry carries the same scope. -/
+/-- `ResponseWriter.WriteMsg` for a cacheable answer: key from the RESPONSE's
+question and the RESPONSE's CD bit (`respCD`) and the clamped scope; the entry
+carries the same CD and scope. -/
 def admitAnswer (H : Bytes → UInt64) (p : Policy) (s : AStore) (id : Nat) (name : Bytes) (qtype qclass : UInt16)
-    (cd : Bool) (client : Scope) (scopeBits : Option Nat) : AStore :=
-  let sc := admitScope p client scopeBits
-  setFromResponse s ((CacheKey.mk name qtype qclass cd sc).hash H) id name qtype qclass cd sc none
+    (respCD : Bool) (client : Scope) (echo : Option Prefix) : AStore :=
+  let sc := admitScope p client echo
+  setFromResponse s ((CacheKey.mk name qtype qclass respCD sc).hash H) id name qtype qclass respCD sc none
 
 /-! ## Background refresh (`prefetch_queue.go`) -/
 
@@ -699,5 +703,99 @@ def shouldQueuePrefetch (prefetchOn aged : Bool) (e : Entry) : Bool :=
 def processPrefetch (s : AStore) (key : UInt64) (expected : Entry) (trigger : Req) (newId : Nat) : AStore × Bool :=
   let asked := prefetchRequest trigger
   replaceIfCurrent s key expected newId asked.name asked.qtype asked.qclass none
+
+/-! ## The decoded CNAME chase (`Cache.additionalAnswer` through the Queryer) -/
+
+/-- a reply of the decoded body as the chase sees and builds it. -/
+inductive MsgReply
+  /-- NOERROR: the answer sections of these entries, in order -/
+  | answer (es : List Entry)
+  /-- NXDOMAIN from a subtree cut, after these answers -/
+  | nx (es : List Entry) (c : Cut)
+  /-- SERVFAIL: a cached failure (EDE 13 travels along) or one made on the spot (loop) -/
+  | failed (f : Option FEntry)
+  | miss
+deriving Repr
+
+def MsgReply.ofOutcome : Outcome → MsgReply
+  | Outcome.hit es => MsgReply.answer es
+  | Outcome.cut c => MsgReply.nx [] c
+  | Outcome.fail f => MsgReply.failed (some f)
+  | Outcome.miss => MsgReply.miss
+
+/-- the entry's answer section carries a record of type `qtype` (harness shapes:
+a terminal entry answers with its own type, an alias with CNAME + TXT). -/
+def hasQtypeRecord (e : Entry) (qtype : UInt16) : Bool :=
+  match e.alias with
+  | none => e.qtype == qtype
+  | some _ => qtype == 5 || qtype == 16
+
+/-- `searchAdditionalAnswer`'s `target`: the Target of the last CNAME merged, "" if none. -/
+def lastCnameTarget (es : List Entry) : Bytes :=
+  match es.reverse.findSome? (·.alias) with
+  | some t => (present t).getD []
+  | none => []
+
+def maxCnameHops : Nat := 10
+def maxCnameChaseDepth : Nat := 10
+
+/-- the `lookup:` loop of `additionalAnswer`; `sub` answers an internal query for
+(target, qtype, the client's class, cd); `fuel` is `cnameDepth`. -/
+def chaseLoop (sub : Bytes → MsgReply) (qname : Bytes) (qtype : UInt16) :
+    Nat → Bytes → List Bytes → List Entry → MsgReply
+  | 0, _, _, acc => MsgReply.answer acc
+  | fuel + 1, target, targets, acc =>
+    if targets.contains target then MsgReply.failed none else
+    match sub target with
+    | MsgReply.answer es =>
+      let newTarget := lastCnameTarget es
+      if newTarget == qname then MsgReply.failed none
+      else if es.any (·.alias.isSome) && decide (fuel > 0) && !(es.any (hasQtypeRecord · qtype)) then
+        chaseLoop sub qname qtype fuel newTarget (targets ++ [target]) (acc ++ es)
+      else MsgReply.answer (acc ++ es)
+    | MsgReply.nx es c => MsgReply.nx (acc ++ es) c
+    | MsgReply.failed f => MsgReply.failed f
+    | MsgReply.miss => MsgReply.answer acc
+
+/-- `additionalAnswer` on the message built from the hit entry `e`. -/
+def additionalAnswer (sub : Bytes → MsgReply) (qname : Bytes) (qtype : UInt16) (e : Entry) : MsgReply :=
+  if qtype == 5 || qtype == 43 then MsgReply.answer [e] else
+  match e.alias with
+  | none => MsgReply.answer [e]
+  | some t =>
+    match present t with
+    | none => MsgReply.answer [e]
+    | some tp =>
+      if tp == qname then MsgReply.failed none
+      else if qtype == 16 then MsgReply.answer [e]
+      else chaseLoop sub qname qtype maxCnameHops tp [] [e]
+
+/-- the decoded body with its alias chase, `depth` nested invocations still allowed
+(`maxCnameChaseDepth - cnameChaseDepth(ctx)`).  Sub-queries are message-born internal
+requests without ECS of their own, in the class the client asked in
+(`cnameReq.Question[0].Qclass = q.Qclass`), inheriting CD and the request tree's ECS mark. -/
+def msgReplyAt (H : Bytes → UInt64) (W : World) (qtype : UInt16) (cd hasECS : Bool) :
+    Nat → Bytes → UInt16 → Scope → MsgReply
+  | 0, name, qclass, client => MsgReply.ofOutcome (serveMsg H W name qtype qclass cd client hasECS)
+  | d + 1, name, qclass, client =>
+    match serveMsg H W name qtype qclass cd client hasECS with
+    | Outcome.hit [e] =>
+      additionalAnswer (fun t => msgReplyAt H W qtype cd hasECS d t qclass none) name qtype e
+    | o => MsgReply.ofOutcome o
+
+/-- a client request through the decoded body of `Cache.ServeDNS`. -/
+def serveMsgFull (H : Bytes → UInt64) (W : World) (name : Bytes) (qtype qclass : UInt16) (cd : Bool)
+    (client : Scope) (hasECS : Bool) : MsgReply :=
+  msgReplyAt H W qtype cd hasECS maxCnameChaseDepth name qclass client
+
+/-- a wire-born request: byte rungs, else the decoded body with its chase. -/
+def serveWireFull (H : Bytes → UInt64) (W : World) (w : Bytes) (qtype qclass : UInt16) (cd : Bool)
+    (due : Entry → Bool := fun _ => false) : MsgReply :=
+  match serveWireCore H W w qtype qclass cd due with
+  | some o => MsgReply.ofOutcome o
+  | none =>
+    match present w with
+    | some name => serveMsgFull H W name qtype qclass cd none false
+    | none => MsgReply.miss
 
 end SdnsVerif.Model.CacheKey
